@@ -181,6 +181,12 @@ def serde_flags(attrs):
     return flags
 
 
+def option_flag(ty):
+    """pseudo-flag `option`: the field's type is `Option<..>` (serde reads an absent key of a self-describing
+    format as `None`; the glue model's `deFieldsMap` follows that rule)"""
+    return {"option"} if re.match(r"(?:(?:::)?(?:std|core)::option::)?Option\s*<", ty) else set()
+
+
 def derives_serde(attrs):
     ser = de = False
     for a in attrs:
@@ -204,7 +210,8 @@ def parse_fields_named(body):
         m = re.match(r"(?:pub(?:\s*\([^)]*\))?\s+)?(r#)?([A-Za-z_][A-Za-z0-9_]*)\s*:\s*(.*)$", rest, re.S)
         if not m:
             raise ParseError("field not understood: " + rest[:80])
-        fields.append({"name": m.group(2), "ty": re.sub(r"\s+", " ", m.group(3).strip()), "flags": serde_flags(attrs)})
+        ty = re.sub(r"\s+", " ", m.group(3).strip())
+        fields.append({"name": m.group(2), "ty": ty, "flags": serde_flags(attrs) | option_flag(ty)})
     return fields
 
 
@@ -213,7 +220,8 @@ def parse_fields_tuple(body):
     for k, item in enumerate(split_top(body)):
         attrs, i = read_attrs(item, 0)
         rest = re.sub(r"^pub(?:\s*\([^)]*\))?\s+", "", item[i:].strip())
-        fields.append({"name": str(k), "ty": re.sub(r"\s+", " ", rest), "flags": serde_flags(attrs)})
+        ty = re.sub(r"\s+", " ", rest)
+        fields.append({"name": str(k), "ty": ty, "flags": serde_flags(attrs) | option_flag(ty)})
     return fields
 
 
@@ -256,6 +264,8 @@ def parse_file(path, rel, crate):
         i = j
         m = ITEM.match(src, skip_ws(src, j))
         if not m:
+            if any(derives_serde(attrs)) and not cfg_not_serde(attrs) and re.match(r"(?:pub(?:\s*\([^)]*\))?\s+)?(struct|enum|union)\b", src[skip_ws(src, j):]):
+                raise ParseError("serde-deriving item whose name is not a plain identifier (macro metavariable?): " + src[skip_ws(src, j):skip_ws(src, j) + 60].replace("\n", " "))
             continue
         ser, de = derives_serde(attrs)
         if not (ser or de):
@@ -293,6 +303,8 @@ def parse_file(path, rel, crate):
                 else:
                     t["variants"] = parse_variants(body)
                     t["kind"] = "enum"
+                    for v in t["variants"]:
+                        t["flags"] = t["flags"] | (v["flags"] - {"skip", "skip_serializing", "skip_deserializing"})
                 i = q
         if name.startswith("[<"):
             # paste!-style name inside `macro_rules! m { ($x:ident) => …}`: one type per invocation `m!(X)`
@@ -313,6 +325,60 @@ def parse_file(path, rel, crate):
             continue
         types.append(t)
     return types
+
+
+MANUAL = re.compile(r"\bimpl\b(?:\s*<[^{;]*?>)?\s*(?:[A-Za-z_][A-Za-z0-9_]*::)*(Serialize|Deserialize|DeserializeOwned|DeserializeSeed)\b(?:\s*<[^>{;]*>)?\s+for\s+(?:&\s*)?(?:[A-Za-z_][A-Za-z0-9_]*::)*([A-Za-z_][A-Za-z0-9_]*)")
+
+
+def manual_impls(path, rel, crate):
+    """hand-written `impl Serialize for X` / `impl<'de> Deserialize<'de> for X`: serde code the derive table does not
+    describe (the harness reports every one that is not on its reviewed list)"""
+    src = strip_comments(open(path, encoding="utf-8").read())
+    return [(crate + "::" + m.group(2), m.group(1), rel) for m in MANUAL.finditer(src)]
+
+
+NDARRAY_TYPES = {"Array", "Array1", "Array2", "Array3", "ArrayBase", "ArrayD", "Array0", "CowArray", "ArcArray", "ArcArray1", "ArcArray2"}
+SPRS_TYPES = {"CsMat", "CsMatBase", "CsVec", "CsVecBase", "CsMatI", "CsVecI"}
+
+
+def feature_table(types):
+    """per crate with serde types: the items of its `serde` feature and the forwards its serde types need
+    (a field of a serde type mentions a serde type of another linfa crate -> `<that crate>/serde`, an ndarray
+    array -> `ndarray/serde`, a sprs matrix -> `sprs/serde`).  Feature unification in the harness build hides a
+    missing forward; a user building the crate alone with `--features serde` gets a compile error."""
+    by_name = {}
+    for t in types:
+        by_name.setdefault(t["name"], set()).add(t["crate"])
+    rows = []
+    for crate, srcdir in crates():
+        mine = [t for t in types if t["crate"] == crate]
+        if not mine:
+            continue
+        toml = os.path.join(os.path.dirname(srcdir), "Cargo.toml")
+        text = open(toml, encoding="utf-8").read()
+        m = re.search(r"^\[features\]\s*$(.*?)(?=^\[|\Z)", text, re.S | re.M)
+        feats = m.group(1) if m else ""
+        fm = re.search(r"^serde\s*=\s*\[(.*?)\]", feats, re.S | re.M)
+        items = sorted(x.strip().strip('"') for x in fm.group(1).split(",") if x.strip()) if fm else []
+        need = {}
+        for t in mine:
+            members = list(t["fields"]) + [f for v in t["variants"] for f in v["fields"]]
+            for f in members:
+                if is_skipped(f["flags"]):
+                    continue
+                for ident in set(re.findall(r"[A-Za-z_][A-Za-z0-9_]*", f["ty"])):
+                    why = f"{t['name']}.{f['name']}"
+                    if ident in NDARRAY_TYPES:
+                        need.setdefault("ndarray/serde", why)
+                    elif ident in SPRS_TYPES:
+                        need.setdefault("sprs/serde", why)
+                    elif ident in by_name and crate not in by_name[ident] and len(by_name[ident]) == 1:
+                        dep = next(iter(by_name[ident]))
+                        # only a crate this one really depends on (a same-named type of an unrelated crate is not meant)
+                        if re.search(r"^\s*" + re.escape(dep) + r"\s*=", text, re.M) or re.search(r"^\[dependencies\." + re.escape(dep) + r"\]", text, re.M):
+                            need.setdefault(dep + "/serde", why)
+        rows.append((crate, items, sorted(need.items())))
+    return rows
 
 
 def crates():
@@ -361,6 +427,14 @@ def module_files(root_file):
             else:
                 raise ParseError(f"{f}: module {name} not found")
     return sorted(seen)
+
+
+def collect_manual():
+    out = []
+    for crate, srcdir in crates():
+        for path in module_files(os.path.join(srcdir, "lib.rs")):
+            out += manual_impls(path, os.path.relpath(path, REPO), crate)
+    return sorted(set(out))
 
 
 def collect():
@@ -429,9 +503,19 @@ def write_outputs(types):
         open(path, "w", encoding="utf-8").write(new)
 
 
+def write_side_tables(types):
+    man = "".join("\t".join(r) + "\n" for r in collect_manual())
+    feat = "".join(f"{c}\t{','.join(items) or '-'}\t{','.join(k + ':' + w for k, w in need) or '-'}\n" for c, items, need in feature_table(types))
+    for name, new in (("C19Manual.tsv", man), ("C19Features.tsv", feat)):
+        path = os.path.join(GEN, name)
+        if not os.path.exists(path) or open(path, encoding="utf-8").read() != new:
+            open(path, "w", encoding="utf-8").write(new)
+
+
 def main():
     try:
         types = collect()
+        write_side_tables(types)
     except ParseError as e:
         print("serde2lean: cannot parse:", e)
         return 1
